@@ -314,3 +314,85 @@ def any_text(rng, root, unique=False):
     if r < 0.55: return gen_doc(rng, root, unique)
     if r < 0.85: return mutate(rng, gen_doc(rng, root, unique))
     return soup(rng, unique)
+
+# ---------------------------------------------------------------------------------------
+# random AKN-shaped XML trees (as sx) for the eid / post / unp stages
+# ---------------------------------------------------------------------------------------
+HIER_TAGS = ['alinea', 'article', 'book', 'chapter', 'clause', 'division', 'indent', 'level', 'list', 'paragraph', 'part',
+             'point', 'proviso', 'rule', 'section', 'subchapter', 'subclause', 'subdivision', 'sublist', 'subparagraph',
+             'subpart', 'subrule', 'subsection', 'subtitle', 'title', 'tome', 'transitional']
+PASS_TAGS = ['arguments', 'background', 'conclusions', 'decision', 'header', 'intro', 'introduction', 'motivation',
+             'preamble', 'preface', 'remedies', 'wrapUp']
+EXEMPT_TAGS = ['body', 'mainBody', 'judgmentBody', 'debateBody', 'attachments', 'num', 'heading', 'subheading', 'content',
+               'tr', 'td', 'th', 'b', 'i', 'u', 'sup', 'sub', 'ins', 'del', 'inline', 'img', 'remark', 'span', 'abbr', 'br',
+               'act', 'doc', 'judgment', 'akomaNtoso']
+OTHER_TAGS = ['p', 'blockList', 'item', 'listIntroduction', 'listWrapUp', 'ul', 'li', 'table', 'hcontainer', 'crossHeading',
+              'longTitle', 'block', 'blockContainer', 'embeddedStructure', 'authorialNote', 'ref', 'term', 'def', 'attachment',
+              'debateSection', 'speech', 'speechGroup', 'from', 'question', 'answer', 'address', 'narrative', 'scene', 'foreign']
+NUMS = ['1', '2', '(a)', '(b)', '1.2.', 'nn', '2_2', '1_2', ' 3 ', 'A.', '...', ' ', '', '1', '1', '2', '(1)(a)', 'IV', '“2.3“',
+        '3a bis', '1-2', '-', '_', '\\1\\', 'é', 'א', ' ', '1 2', '⸗', '\U0001F600', '(a', 'a)', '1..2', 'x__y', 'sec_1', '١']
+
+def rand_num(rng):
+    r = rng.random()
+    if r < 0.75:
+        return rng.choice(NUMS)
+    n = rng.randint(1, 4)
+    return ''.join(chr(rng.choice([rng.randint(32, 126), rng.randint(0x2000, 0x206f), rng.randint(0x2e00, 0x2e7f), rng.randint(0xa0, 0x2ff),
+                                   rng.choice([9, 10, 0x85, 0x3000, 0x1680, 95, 45, 46])])) for _ in range(n))
+
+def rand_eid(rng, pool):
+    r = rng.random()
+    if r < 0.35: return None
+    if r < 0.40: return ''
+    if r < 0.7 and pool: return rng.choice(pool)
+    e = rng.choice(['sec_1', 'sec_2', 'chp_1', 'part_A__sec_1', 'p_1', 'hcontainer_1', 'sec_1__p_1', 'x', 'sec_nn_1', 'para_a', 'chp_1__sec_2'])
+    pool.append(e)
+    return e
+
+def gen_akn_tree(rng, depth=0, pool=None, maxdepth=5, ids=True):
+    """Returns an sx element."""
+    if pool is None:
+        pool = []
+    r = rng.random()
+    if depth == 0:
+        tag = rng.choice(['act', 'body', 'doc', 'akomaNtoso', 'chapter', 'section', 'mainBody'])
+    elif r < 0.35: tag = rng.choice(HIER_TAGS)
+    elif r < 0.5: tag = rng.choice(PASS_TAGS)
+    elif r < 0.65: tag = rng.choice(EXEMPT_TAGS)
+    elif r < 0.97: tag = rng.choice(OTHER_TAGS)
+    else: tag = 'meta'
+    attrs = []
+    if rng.random() < 0.15:
+        attrs.append(['class', rng.choice(['a', 'b c'])])
+    if ids:
+        e = rand_eid(rng, pool)
+        exempt = tag in EXEMPT_TAGS or tag in PASS_TAGS
+        if e is not None and (not exempt or rng.random() < 0.05):
+            attrs.append(['eId', e])
+    if rng.random() < 0.1:
+        attrs.append(['name', rng.choice(['x', 'hcontainer'])])
+    kids = []
+    if rng.random() < 0.1:
+        kids.append(['T', rng.choice(['txt', ' ', 'a b'])])
+    if (tag in HIER_TAGS or tag in ('item', 'hcontainer', 'attachment', 'debateSection')) and rng.random() < 0.75:
+        numkids = []
+        n = rand_num(rng)
+        if rng.random() < 0.05:
+            numkids.append(['E', 'b', [], [['T', 'x']]])
+        if n != '':
+            numkids.append(['T', n])
+        if rng.random() < 0.05:
+            numkids.append(['E', 'sup', [], [['T', 'y']]])
+        kids.append(['E', 'num', [], numkids])
+        if rng.random() < 0.05:
+            kids.append(['E', 'num', [], [['T', rand_num(rng)]]])
+    if tag == 'meta':
+        kids.append(['E', 'identification', [['eId', 'ident']], [['E', 'FRBRWork', [['eId', rng.choice(['w', 'sec_1'])]], []]]])
+        return ['E', tag, attrs, kids]
+    if depth < maxdepth:
+        n = rng.choice([0, 1, 1, 2, 2, 3, 4]) if depth > 0 else rng.randint(1, 5)
+        for _ in range(n):
+            kids.append(gen_akn_tree(rng, depth + 1, pool, maxdepth, ids))
+            if rng.random() < 0.08:
+                kids.append(['T', rng.choice(['tail', ' '])])
+    return ['E', tag, attrs, kids]
